@@ -3,8 +3,10 @@
 // Package verif contains tracing hooks used by external verification tooling.
 // With the build tag `verif`, Emit appends one JSON line per event to the file
 // named by $VERIF_TRACE (sequence numbers are taken under the same mutex that
-// serialises the writes) and Yield perturbs the goroutine schedule with a
-// generator seeded from $VERIF_SCHED_SEED.
+// serialises the writes), Yield perturbs the goroutine schedule with a
+// generator seeded from $VERIF_SCHED_SEED, and Gate / GateDone force the
+// processor callbacks of one pipeline run through the order given in
+// $VERIF_SCHEDULE.
 package verif
 
 import (
@@ -83,4 +85,78 @@ func Yield(point string) {
 	case 3:
 		time.Sleep(time.Duration(r%200) * time.Microsecond)
 	}
+}
+
+var (
+	gateMu      sync.Mutex
+	gateCond    = sync.NewCond(&gateMu)
+	gateOnce    sync.Once
+	gateOrder   [][2]int // the (stage, item) steps in the order in which they have to run
+	gateNext    int      // index of the step that may run now
+	gateRun     int64    // the pipeline run that is scheduled (default: the first)
+	gateTimeout = 3 * time.Second
+	gateOpen    bool // set when a step has waited too long: the schedule is abandoned
+)
+
+func gateSetup() {
+	gateRun = 1
+	if s := os.Getenv("VERIF_SCHEDULE_RUN"); s != "" {
+		if v, err := strconv.ParseInt(s, 10, 64); err == nil {
+			gateRun = v
+		}
+	}
+	if s := os.Getenv("VERIF_GATE_TIMEOUT_MS"); s != "" {
+		if v, err := strconv.Atoi(s); err == nil && v > 0 {
+			gateTimeout = time.Duration(v) * time.Millisecond
+		}
+	}
+	if s := os.Getenv("VERIF_SCHEDULE"); s != "" {
+		if err := json.Unmarshal([]byte(s), &gateOrder); err != nil {
+			gateOrder = nil
+		}
+	}
+}
+
+// Gate blocks the callback of stage `stage` for its `item`-th day until every step before it in
+// $VERIF_SCHEDULE (a JSON list of [stage, item] pairs) is done. Steps that are not scheduled wait
+// until the schedule is exhausted. A step that waits longer than $VERIF_GATE_TIMEOUT_MS abandons
+// the schedule (event GateTimeout) and everything runs freely from then on.
+func Gate(run int64, stage, item int) {
+	gateOnce.Do(gateSetup)
+	if len(gateOrder) == 0 || run != gateRun {
+		return
+	}
+	deadline := time.Now().Add(gateTimeout)
+	timer := time.AfterFunc(gateTimeout, func() {
+		gateMu.Lock()
+		gateCond.Broadcast()
+		gateMu.Unlock()
+	})
+	defer timer.Stop()
+	gateMu.Lock()
+	for !gateOpen && gateNext < len(gateOrder) && gateOrder[gateNext] != [2]int{stage, item} {
+		if !time.Now().Before(deadline) {
+			gateOpen = true
+			gateCond.Broadcast()
+			gateMu.Unlock()
+			Emit("GateTimeout", "stage", stage, "item", item, "next", gateNext)
+			return
+		}
+		gateCond.Wait()
+	}
+	gateMu.Unlock()
+}
+
+// GateDone marks the step as done and lets the next scheduled step run.
+func GateDone(run int64, stage, item int) {
+	gateOnce.Do(gateSetup)
+	if len(gateOrder) == 0 || run != gateRun {
+		return
+	}
+	gateMu.Lock()
+	if gateNext < len(gateOrder) && gateOrder[gateNext] == [2]int{stage, item} {
+		gateNext++
+	}
+	gateCond.Broadcast()
+	gateMu.Unlock()
 }
